@@ -1,7 +1,8 @@
 (* C18 - Navigation and metadata: property theorems only (models: model/C18*.v, proofs: proofs/C18_*.v). *)
 From Coq Require Import ZArith List Bool String.
-Require Import WV.model.C18Bookmarks WV.model.C18Outline WV.model.C18Links WV.model.C18Date WV.model.C18Aabb WV.model.C18Href.
-Require Import WV.proofs.C18_bookmarks WV.proofs.C18_outline WV.proofs.C18_links WV.proofs.C18_date WV.proofs.C18_aabb WV.proofs.C18_href.
+Require Import WV.model.C18Bookmarks WV.model.C18Outline WV.model.C18Links WV.model.C18Date WV.model.C18Aabb WV.model.C18Href WV.model.C18Names.
+Require Import WV.proofs.C18_bookmarks WV.proofs.C18_outline WV.proofs.C18_links WV.proofs.C18_date WV.proofs.C18_aabb WV.proofs.C18_href WV.proofs.C18_names.
+From Coq Require Import Sorted Permutation.
 From Coq Require Import QArith.
 Import ListNotations.
 Open Scope Z_scope.
@@ -199,3 +200,18 @@ Theorem C18_other_references_are_external (base : option Z) (doc : Z) (f : list 
    get_link_attribute base (AUrl doc f) = LExternal doc (iri_to_uri f) /\ get_link_attribute base AEmpty = LNone)%Z.
 Proof. exact (other_references_are_external base doc f). Qed.
 Print Assumptions C18_other_references_are_external.
+
+(* ---- 7. the /Dests name tree: pdf_names.sort(key=(not isascii, utf-16-be)) of generate_pdf (after 484a69a) ----
+   a name = its UTF-16 code units; written n = the key bytes a reader sees: the ASCII characters, or FE FF + UTF-16BE;
+   lex_leb = <= on byte strings. *)
+Theorem C18_dests_sort_key_is_byte_order (a b : name) :
+  key_leb (key a) (key b) = lex_leb (written a) (written b).
+Proof. exact (key_order_is_byte_order a b). Qed.
+Print Assumptions C18_dests_sort_key_is_byte_order.
+
+(* the names are written in an order that is sorted bytewise (ISO 32000-1 7.9.6), none lost or added *)
+Theorem C18_dests_names_sorted_bytewise (l : list name) :
+  Permutation (sort_names l) l /\
+  Sorted (fun a b => lex_leb (written a) (written b) = true) (sort_names l).
+Proof. exact (dests_names_sorted_bytewise l). Qed.
+Print Assumptions C18_dests_names_sorted_bytewise.
